@@ -506,6 +506,10 @@ func CheckMain(id, tier string, self string) int {
 		}
 		return a.Witness < b.Witness
 	})
+	if dump := os.Getenv("VERIF_DUMP_FAILURES"); dump != "" {
+		db, _ := json.MarshalIndent(merged.Failures, "", " ")
+		os.WriteFile(dump, db, 0o644)
+	}
 	seenBucket := map[string]bool{}
 	knownHit := map[*KnownFinding]int{}
 	violations := 0
